@@ -556,6 +556,9 @@ func (fv *FuncVC) checkAddrUse(v ssa.Value) {
 	case *types.Struct, *types.Array:
 		return
 	}
+	if isOpaque(et) {
+		return // contents are only ever touched by trusted functions
+	}
 	if fv.isRaw(v) {
 		return
 	}
